@@ -39,6 +39,7 @@ def label_of(t):
 
 ALLOWED_AXIOMS = {"propext", "Classical.choice", "Quot.sound"}
 _BAD = re.compile(r"\b(sorry|admit|native_decide|bv_decide|implemented_by|unsafe)\b|^\s*axiom\s|maxHeartbeats\s+0", re.M)
+AUDIT_VERSION = "3"     # part of the cache key: bump when the audit of _check_module changes
 STATE = {}          # filled by pre_build: status per function, changed flag, seconds
 
 
@@ -163,7 +164,7 @@ def _module_key(lean_dir, owner, G=GENS[0]):
             if f.endswith(".lean"):
                 st = os.stat(os.path.join(root, f))
                 meta.append(f"{os.path.relpath(os.path.join(root, f), d)}:{st.st_size}:{st.st_mtime_ns}")
-    return _sha(*parts, "\n".join(sorted(meta)))
+    return _sha(*parts, "\n".join(sorted(meta)), AUDIT_VERSION)
 
 
 def _check_module(lean_dir, owner, names, G=GENS[0]):
@@ -195,18 +196,64 @@ def _check_module(lean_dir, owner, names, G=GENS[0]):
     os.unlink(tmp)
     flat = re.sub(r"\s+", " ", out2)
     # line -> enclosing theorem, to name the lemma that broke
-    decl_lines = [(i + 1, mm.group(1)) for i, l in enumerate(src.splitlines())
-                  for mm in [re.match(r"\s*(?:theorem|lemma)\s+(\S+)", l)] if mm]
+    src_lines = src.splitlines()
+
+    def decl_start(i):
+        """0-based index of the first line of the declaration whose keyword is on line i: Lean reports some errors at the
+        start of the declaration, which includes its doc comment and attributes"""
+        j = i
+        while j > 0 and src_lines[j - 1].strip().startswith("@["):
+            j -= 1
+        if j > 0 and src_lines[j - 1].rstrip().endswith("-/"):
+            k = j - 1
+            while k >= 0 and "/--" not in src_lines[k]:
+                if "/-" in src_lines[k] and "/--" not in src_lines[k]:
+                    return j        # an ordinary comment, not a doc comment
+                k -= 1
+            if k >= 0:
+                j = k
+        return j
+    decl_lines = [(decl_start(i) + 1, mm.group(1)) for i, l in enumerate(src_lines)
+                  for mm in [re.match(r"\s*(?:private\s+|protected\s+)?(?:theorem|lemma)\s+(\S+)", l)] if mm]
     def enclosing(line):
         best = None
         for ln, nm in decl_lines:
             if ln <= line:
                 best = nm
         return best
+    # errors Lean reports while elaborating the copy count as well (same line numbers: the source comes first)
+    for mm in re.finditer(r"^\S*srctie_%s_\d+\.lean:(\d+):\d+: error: (.*)$" % owner, out2, re.M):
+        errs.setdefault(int(mm.group(1)), mm.group(2)[:160])
     broken = sorted({enclosing(l) for l in errs if enclosing(l)})
+    if broken:
+        # a declaration that mentions a broken one is broken too (Lean's error recovery can add a declaration whose statement
+        # did not typecheck, and what uses it then elaborates without error): closure over the text of the declarations
+        lines_ = src.splitlines()
+        seg = {}
+        for k_, (ln, nm) in enumerate(decl_lines):
+            end = decl_lines[k_ + 1][0] - 1 if k_ + 1 < len(decl_lines) else len(lines_)
+            seg[nm] = "\n".join(lines_[ln - 1:end])
+        bset, grew = set(broken), True
+        while grew:
+            grew = False
+            for nm, text in seg.items():
+                if nm not in bset and any(re.search(r"(?<![\w.'])" + re.escape(b.split(".")[-1]) + r"(?![\w'])", text) for b in bset):
+                    bset.add(nm)
+                    grew = True
+        first_err = errs[min(errs)]
+        for nm in sorted(bset - set(broken)):
+            ln = next(l for l, n_ in decl_lines if n_ == nm)
+            errs.setdefault(ln, f"uses a declaration that no longer checks ({', '.join(broken)}: {first_err})")
+        broken = sorted(bset)
     for n in names:
         res[n] = (True, theorem_of(n))
         for th in theorems_of(n):
+            # an error inside the theorem itself (statement or proof): Lean's error recovery may still add the declaration
+            # (a statement that does not typecheck is elaborated with a placeholder and `#print axioms` can come out clean)
+            if th.split(".")[-1] in broken:
+                line = min(l for l in errs if enclosing(l) == th.split(".")[-1])
+                res[n] = (False, f"{th} no longer checks (failing proof: {th.split('.')[-1]}: {errs[line]})")
+                break
             mm = re.search(r"'" + re.escape(th) + r"' (does not depend on any axioms|depends on axioms: \[([^\]]*)\])", flat)
             if not mm:
                 res[n] = (False, f"{th} is missing or does not elaborate" +
